@@ -45,6 +45,45 @@ def field_path(e):
     return None
 
 
+def split_attrs(s):
+    """split a serde(...) argument list on top-level commas (not inside quotes or parentheses)"""
+    out, cur, q, depth = [], "", False, 0
+    for ch in s:
+        if ch == '"':
+            q = not q
+        elif not q and ch in "(<":
+            depth += 1
+        elif not q and ch in ")>":
+            depth -= 1
+        if ch == "," and not q and depth <= 0:
+            out.append(cur)
+            cur = ""
+        else:
+            cur += ch
+    out.append(cur)
+    return out
+
+
+# a loader may normalise a stored field by a transformation that is the identity on every saved object: (type, field) -> (method, why)
+NORMALISED = {("curves::curve::CurveDF", "nodes"): ("sort_keys", "the constructor stores nodes sorted (C11 R11.4), so re-sorting a saved curve changes nothing")}
+
+
+def normalised_copy(body, local, pname, adt, field):
+    """Is `local` bound by `let [mut] local = <pname>.<field>` and otherwise only the receiver of the allowed normalising method?"""
+    want = NORMALISED.get((adt, field))
+    if want is None:
+        return False
+    inits = [s_ for e in hir.walk(body) if e.get("k") == "block" for s_ in e["stmts"] if s_["k"] == "let" and s_["pat"].get("name") == local]
+    if len(inits) != 1 or field_path(inits[0]["init"]) != (pname, field):
+        return False
+    for e in hir.walk(body):
+        if e.get("k") == "mcall" and field_path(e["recv"]) == (local,) and e["m"] != want[0]:
+            return False
+        if e.get("k") in ("assign", "assignop") and field_path(e.get("l") or e.get("lhs") or {}) == (local,):
+            return False
+    return True
+
+
 def run(ck, facts, tier):
     repo = facts.repo
     # ---------------- S16.1
@@ -99,7 +138,7 @@ def run(ck, facts, tier):
                  "serde attribute not representable in bincode on %s: %s" % (adt, call), where, sample="container attrs: %s" % (cattrs or "none"))
         model = None
         m = re.search(r'(try_from|from)\s*=\s*"([^"]+)"', call)
-        unknown = [x for x in re.split(r",\s*(?![^()]*\))", call) if x.strip() and not re.match(r'\s*(try_from|from)\s*=', x)]
+        unknown = [x for x in split_attrs(call) if x.strip() and not re.match(r'\s*(try_from|from)\s*=', x)]
         if unknown:
             ck.fail(s2, adt + ":container-attr", "container attribute(s) %s change the serialised form and are not modelled" % unknown, where)
         if m:
@@ -186,7 +225,8 @@ def run(ck, facts, tier):
                 e = lits[0]
                 if e["k"] == "struct":
                     pairs = [(n, field_path(v)) for n, v in e["fields"]]
-                    ok = all(fp == (pname, n) for n, fp in pairs) and [n for n, _ in pairs] == [x["name"] for x in tf]
+                    ok = all(fp == (pname, n) or (fp is not None and len(fp) == 1 and normalised_copy(c["body"], fp[0], pname, adt, n)) for n, fp in pairs) and \
+                        [n for n, _ in pairs] == [x["name"] for x in tf]
                 else:
                     pairs = [(str(i), field_path(v)) for i, v in enumerate(e["args"])]
                     ok = all(fp == (pname, n) for n, fp in pairs) and len(pairs) == len(tf)
